@@ -3,6 +3,7 @@
 //! property oracles directly to the implementation's outputs.
 pub mod frames;
 pub mod gen;
+pub mod scen_gate;
 pub mod ledger;
 pub mod scen_conn;
 pub mod scenarios;
